@@ -150,7 +150,8 @@ def runs(ck):
       vname = "shard" if mode == "shard" else "compressed" if crank else {"pmap": "full", "pmapq": "int16"}[v]
       if quick and r0["N"] not in QUICK_N[vname]:
         continue                      # budget: quick runs a subset of the exported trees per variant
-      for P in ([1, 2] if not quick else [1 + gi % 2]):
+      # both preconditioner cadences for the full-precision pmap runs (thorough), alternating otherwise
+      for P in ([1, 2] if (not quick and vname == "full") else [1 + gi % 2]):
         o = {"mode": v, "P": P, "S": 1, "Start": 1, "merge": False, "block_size": r0["cfg"]["B"],
              "compression_rank": crank, "beta2": [1.0, 0.75][gi % 2], "beta1": [0.0, 0.5][(gi // 2) % 2],
              "graft": ["SGD", "RMSPROP", "ADAGRAD"][gi % 3], "nesterov": bool(gi % 2)}
@@ -181,7 +182,9 @@ def runs(ck):
                    {"job": j, "err": r["error"]})
       continue
     for k, v in r["worst"].items():
-      ck.calib(f"{k}[{variant}]", v, {"stats_xD": 1e-5, "roots_xD": 1e-3, "upd_xD": 1e-3}[k])
+      if v or not k.endswith("unsharded") or o["mode"] == "shard":
+        ck.calib(f"{k}[{variant}]", v, {"stats_xD": 1e-5, "roots_xD": 1e-3, "upd_xD": 1e-3,
+                                        "stats_shard_vs_unsharded": 1e-4, "roots_shard_vs_unsharded": 5e-3}[k])
     if r["mismatches"]:
       m = r["mismatches"][0]
       ck.violation(f"ds|{variant}|{m['clause']}",
